@@ -298,3 +298,32 @@ M('C15', 'artifact-error-keeps-state', 'mithril-aggregator/src/runtime/state_mac
                     .to_string(),
                 nested_error: Some(e),
             })?;""", ['ReInit'], 'artifact failure leaves the machine in SIGNING')
+
+# ---------------------------------------------------------------- C16
+M('C16', 'store-before-verify', CSF,
+  """        self.multi_signer
+            .verify_single_signature(&open_message.protocol_message.to_message(), signature)
+            .await
+            .map_err(|err| {
+                CertifierServiceError::InvalidSingleSignature(
+                    signed_entity_type.clone(),
+                    signature.party_id.clone(),
+                    err,
+                )
+            })?;
+""", """        if let Err(err) = self.multi_signer
+            .verify_single_signature(&open_message.protocol_message.to_message(), signature)
+            .await
+        {
+            warn!(self.logger, "invalid single signature"; "error" => ?err);
+        }
+""", ['verify_single_signature'], 'invalid signatures stored')
+M('C16', 'expired-flag-ignored', CSF,
+  """            return Err(CertifierServiceError::Expired(signed_entity_type.clone()).into());
+        }
+
+        self.multi_signer""", """        }
+
+        self.multi_signer""", ['is_expired'], 'signatures accepted for an expired round')
+M('C16', 'route-skips-authentication', 'mithril-aggregator/src/http_server/routes/signatures_routes.rs',
+  '        if !single_signature.is_authenticated() {', '        if !single_signature.is_authenticated() && single_signature.party_id.is_empty() {', ['route'], 'unauthenticated signatures registered')
